@@ -106,6 +106,11 @@ def run(ctx):
     shared = sorted(set(FIELDS) & set(ROW_KIND))
     ctx.ob("R2", "field-table", site.loc(), "builder and checker are verified against the same field -> grammar table for %s; builder fields cover the checker's required fields plus version" % ", ".join(shared), set(["type", "metadata_spec_version", "delegations", "expiration", "version"]) <= set(FIELDS), nontrivial=False)
 
+    # the checker the result must pass is verified against the same table (C14's rule set)
+    from . import c14
+
+    c14.run(ctx.sub("DEP-C14"))
+
     # ---- R3 root wrapper
     rm = eng.walk("metadata_construction.build_root_metadata")
     rsite = fn_site(eng, rm)
